@@ -471,13 +471,16 @@ def rand_region(sim: Sim, c):
     return out
 
 
-def run_history(alpha: Alphabet, seed: int, length: int, kinds=None) -> Sim:
+def run_history(alpha: Alphabet, seed: int, length: int, kinds=None,
+                holder=None) -> Sim:
     """Run one random history on the real code and record lines."""
     from bqskit.ir.circuit import Circuit
     from bqskit.ir.gates import CircuitGate
     from bqskit.ir.operation import Operation
     rng = random.Random(seed)
     sim = Sim(alpha, rng)
+    if holder is not None:
+        holder.append(sim)
     nq = rng.randint(1, 6)
     radixes = [rng.choice([2, 2, 2, 3]) for _ in range(nq)]
     c = Circuit(nq, radixes)
@@ -506,6 +509,7 @@ def run_history(alpha: Alphabet, seed: int, length: int, kinds=None) -> Sim:
         the call (decided by the caller from the grid, not by the model), so
         any exception is an internal error of the implementation."""
         nonlocal c
+        sim.current_call = call
         k0 = line.split(' ', 1)[0]
         u0 = unitary_or_none(c) if k0 in STRUCT and k0 != 'restore' else None
         try:
@@ -998,11 +1002,13 @@ def menu(nq: int):
     return m
 
 
-def run_menu(alpha: Alphabet, nq: int, seq) -> Sim:
+def run_menu(alpha: Alphabet, nq: int, seq, holder=None) -> Sim:
     from bqskit.ir.circuit import Circuit
     from bqskit.ir.gates import CircuitGate
     from bqskit.ir.operation import Operation
     sim = Sim(alpha, random.Random(0))
+    if holder is not None:
+        holder.append(sim)
     c = Circuit(nq)
     sim.record('new ' + ','.join(['2'] * nq), 'ok', c, f'Circuit({nq})')
     items = menu(nq)
@@ -1012,6 +1018,7 @@ def run_menu(alpha: Alphabet, nq: int, seq) -> Sim:
         return Operation(gate, loc, sim.fresh_params(gate.num_params))
 
     def attempt(line, call, fn, on_ok=lambda r: 'ok'):
+        sim.current_call = call
         try:
             ret = on_ok(fn())
         except tuple(ERR) as e:
@@ -1131,15 +1138,66 @@ def run_menu(alpha: Alphabet, nq: int, seq) -> Sim:
     return sim
 
 
+class HistoryTimeout(Exception):
+    pass
+
+
+def _alarm(signum, frame):
+    raise HistoryTimeout()
+
+
+HISTORY_CPU_S = 40          # one history normally takes well under a second
+WORKER_AS_BYTES = 6 << 30   # address-space limit of a worker process
+
+
+def _guard_process():
+    """A changed tree can make a call loop for ever or allocate without bound;
+    neither may take the check (or the machine) down: each history gets a CPU
+    alarm, each worker an address-space limit (MemoryError instead of OOM)."""
+    import resource
+    import signal
+    signal.signal(signal.SIGALRM, _alarm)
+    try:
+        soft, hard = resource.getrlimit(resource.RLIMIT_AS)
+        lim = WORKER_AS_BYTES if hard == resource.RLIM_INFINITY \
+            else min(WORKER_AS_BYTES, hard)
+        resource.setrlimit(resource.RLIMIT_AS, (lim, hard))
+    except (ValueError, OSError):
+        pass
+
+
+def _stuck(key, holder, e):
+    """Result tuple for a history that hung, ran out of memory or made the
+    generator's own reads of the circuit fail."""
+    sim = holder[0] if holder else None
+    calls = list(sim.calls) if sim is not None else []
+    cur = getattr(sim, 'current_call', None)
+    what = (f'{type(e).__name__} during {cur} after {len(calls)} recorded '
+            f'calls: ' + ' ; '.join(calls[-6:]))
+    return (key, ['new 2'], ['PROBE-FAILED # # '],
+            ['(history aborted: ' + what[:300] + ')'],
+            ('probe', repr(e) + ' ' + what + '\n'
+             + traceback.format_exc()[-1500:]), None)
+
+
 def menu_worker(args):
+    import signal
     nq, seqs = args
     alpha = Alphabet()
     out = []
+    _guard_process()
     for j, seq in enumerate(seqs):
+        holder: list = []
         try:
-            sim = run_menu(alpha, nq, seq)
+            signal.alarm(HISTORY_CPU_S)
+            try:
+                sim = run_menu(alpha, nq, seq, holder)
+            finally:
+                signal.alarm(0)
             out.append((('menu', nq, tuple(seq)), sim.lines, sim.impl,
                         sim.calls, sim.internal_error, sim.unitary_bad))
+        except (HistoryTimeout, MemoryError, RecursionError) as e:
+            out.append(_stuck(('menu', nq, tuple(seq)), holder, e))
         except Exception as e:
             out.append((('menu', nq, tuple(seq)), None, None, None,
                         ('HARNESS', repr(e) + traceback.format_exc()[-2000:]),
@@ -1173,14 +1231,24 @@ def seed_of(base: int, i: int) -> int:
 
 
 def worker(args):
+    import signal
     base, start, count, length, kinds = args
     alpha = Alphabet()
     out = []
+    _guard_process()
     for i in range(start, start + count):
+        holder: list = []
         try:
-            sim = run_history(alpha, seed_of(base, i), length, kinds)
+            signal.alarm(HISTORY_CPU_S)
+            try:
+                sim = run_history(alpha, seed_of(base, i), length, kinds,
+                                  holder)
+            finally:
+                signal.alarm(0)
             out.append((i, sim.lines, sim.impl, sim.calls,
                         sim.internal_error, sim.unitary_bad))
+        except (HistoryTimeout, MemoryError, RecursionError) as e:
+            out.append(_stuck(i, holder, e))
         except (IndexError, KeyError, AssertionError, ValueError,
                 AttributeError, TypeError) as e:
             # the generator itself reads the circuit through the public API
